@@ -224,6 +224,15 @@ class Ctx:
                 self.uncovered.append(line[10:])
             elif line.startswith('INFO '):
                 self.infos.append(line[5:])
+        if local.get('framework_worker_abnormal'):
+            # a worker process of the harness ended abnormally (the code under test crashed or ended the process) and no case-level
+            # report covers it: what that worker had left to enumerate was not run.  Never silent.
+            before = [v for v in self.viols if v['step'] == step]
+            info = [l[5:] for l in r.stdout.split('\n') if l.startswith('INFO worker_abnormal')][:3]
+            if not before:
+                self.viols.append({'sig': '%s.worker-died.%s' % (self.prop, step), 'case': '', 'detail': 'an enumeration worker of %s ended abnormally (%s) without a case-level report; stderr tail: %s' % (step, '; '.join(info), r.stderr[-400:].replace('\n', ' | ')), 'step': step, 'args': list(args), 'noreplay': True})
+            self.exhaustive = False
+            self.incomplete.append('%s: %d worker(s) ended abnormally' % (step, local['framework_worker_abnormal']))
         if local.get('early_stop_workers'):
             self.exhaustive = False
             self.incomplete.append('%s: workers stopped early after 25 crashing cases each' % step)
